@@ -179,7 +179,7 @@ class C18(Prop):
                           policies=nat + ["1", "2"])]
         return [Layer("FS pairs", pairs, policies=nat + ["1"]),
                 Layer("FCFG skeletons<=2 prods, all annotations", lambda: fcfg_cases(2, 99), policies=nat + ["1"]),
-                Layer("FCFG skeletons<=3 prods, <=3 annotated", lambda: fcfg_cases(3, 3), policies=nat),
+                Layer("FCFG skeletons<=3 prods, <=4 annotated", lambda: fcfg_cases(3, 4), policies=nat),
                 Layer("FCFG agreement skeletons (3 variables), all annotations", lambda: agreement_cases(99),
                       policies=nat + ["1", "2"])]
 
